@@ -90,6 +90,33 @@ impl Deref for Shape {
         &self.0
     }
 }
+impl DerefMut for Shape {
+    fn deref_mut(&mut self) -> &mut [usize] {
+        &mut self.0
+    }
+}
+/// rayon stand-ins (ASSUMPTION: rayon's parallel iteration visits the same items as the sequential one;
+/// the parallel branches are only taken beyond 500 sub-arrays, outside the bounded shapes)
+pub trait IntoParallelIterator: IntoIterator + Sized {
+    fn into_par_iter(self) -> Self::IntoIter {
+        self.into_iter()
+    }
+}
+impl IntoParallelIterator for std::ops::Range<usize> {}
+pub trait ParallelSliceMut<T> {
+    fn par_chunks_mut(&mut self, n: usize) -> std::slice::ChunksMut<'_, T>;
+}
+impl<T> ParallelSliceMut<T> for [T] {
+    fn par_chunks_mut(&mut self, n: usize) -> std::slice::ChunksMut<'_, T> {
+        self.chunks_mut(n)
+    }
+}
+impl<T> Array<T> {
+    /// src/algorithm/map.rs:160
+    pub fn is_map(&self) -> bool {
+        self.meta.map_keys.as_ref().is_some()
+    }
+}
 #[derive(Debug, Clone, Default)]
 pub struct Data<T>(pub Vec<T>);
 impl<T> Data<T> {
